@@ -29,8 +29,28 @@ func (c *notCond) check() error {
 func (c *notCond) string() string {
 	next := c.notC.string()
 	if strings.HasPrefix(next, "(") {
-		return fmt.Sprintf("not %s", c.notC.string())
+		return fmt.Sprintf("not %s", next)
 	}
-	splitted := strings.Split(next, " ")
-	return strings.Join(append([]string{splitted[0], "not"}, splitted[1:]...), " ")
+	if _, ok := c.notC.(*notCond); ok {
+		// A negated negation must be grouped, "not not" would be read as a single negation.
+		return fmt.Sprintf("not (%s)", next)
+	}
+
+	// Insert the negation after the key, which may be wrapped in parenthesis and contain spaces.
+	keyEnd := strings.Index(next, " ")
+	if strings.HasPrefix(next, "\"") {
+		keyEnd = -1
+		for i := 1; i < len(next); i++ {
+			if next[i] == '\\' {
+				i++
+			} else if next[i] == '"' {
+				keyEnd = i + 1
+				break
+			}
+		}
+	}
+	if keyEnd < 0 || keyEnd >= len(next) {
+		return fmt.Sprintf("not (%s)", next)
+	}
+	return next[:keyEnd] + " not" + next[keyEnd:]
 }
